@@ -216,16 +216,23 @@ def e2e_post(lines, kind, floors):
     if not full_run(lines):
         return []
     e = _e2e(lines, kind)
-    sk = [ln for ln in e if _skipped(ln)]
+    allsk = [ln for ln in e if _skipped(ln)]
+    # "the driver opened a connection to a healthy node while requests ran" is not an environment failure:
+    # it is counted (and capped) on its own, it does not share the cap of the scenarios that could not start
+    churn = [ln for ln in allsk if "pool-changed-during-the-scenario" in ln]
+    sk = [ln for ln in allsk if ln not in churn]
     if not e:
         return [("diff", kind, "diff e2e tie not exercised: the runner produced no %s scenario" % kind)]
     if len(sk) > max(3, len(e) // 50):
         return [("diff", sk[0], "diff e2e tie not exercised: %d of %d scenarios could not start (%s)"
                  % (len(sk), len(e), sk[0].split("|", 1)[1].strip()))]
     out = []
-    if len(e) - len(sk) < 200:  # 260 are generated; the cap on not-run scenarios is max(3, 2 %)
-        out.append(("diff", kind, "diff e2e floor: only %d %s scenarios ran (floor 200)" % (len(e) - len(sk), kind)))
-    # the cap above tolerates a few scenarios that could not start; the shapes are scenarios like the others
+    if len(churn) > max(3, len(e) // 50):
+        out.append(("diff", churn[0], "diff e2e: in %d of %d scenarios the driver's pools changed during the measured phase "
+                                      "(cap %d): pool churn on healthy nodes" % (len(churn), len(e), max(3, len(e) // 50))))
+    if len(e) - len(allsk) < 200:  # 260 are generated; each of the two not-run classes is capped at max(3, 2 %)
+        out.append(("diff", kind, "diff e2e floor: only %d %s scenarios ran (floor 200)" % (len(e) - len(allsk), kind)))
+    # the caps above tolerate a few scenarios that did not run; the shapes are scenarios like the others
     shapes = {ln.split()[1] for ln in e if not _skipped(ln) and len(ln.split()[1]) == 1}
     if len(shapes) < 11:
         out.append(("diff", kind, "diff e2e floor: only %d of the 14 fixed-shape scenarios ran (floor 11)" % len(shapes)))
@@ -264,6 +271,8 @@ E6_FLOORS = [
     ("at a serial consistency", lambda t: _fld(t, "cl") in ("Serial", "LocalSerial"), 40),
     ("that failed", lambda t: _fld(t, "res").startswith("X"), 150),
     ("ended by the client-side request timeout", lambda t: _fld(t, "res") == "timeout", 10),
+    ("ended by the client-side request timeout after more than one frame (a frame sent close to the timeout)",
+     lambda t: _fld(t, "res") == "timeout" and _nframes(t) > 1, 6),
 ]
 
 
@@ -278,7 +287,8 @@ def e2e_coverage(lines, kind):
         apis[fld(t, "api")] = apis.get(fld(t, "api"), 0) + 1
     return {
         "e2e_scenarios": len(e),
-        "e2e_scenarios_not_started_env": sum(1 for ln in e if _skipped(ln)),
+        "e2e_scenarios_not_started_env": sum(1 for ln in e if _skipped(ln) and "pool-changed-during-the-scenario" not in ln),
+        "e2e_scenarios_not_judged_pool_changed": sum(1 for ln in e if "| skip-env pool-changed-during-the-scenario" in ln),
         "e2e_logical_requests_judged": len(recs),
         "e2e_request_frames_judged": sum(nfr),
         "e2e_requests_with_more_than_one_frame": sum(1 for n in nfr if n > 1),
@@ -290,6 +300,7 @@ def e2e_coverage(lines, kind):
         "e2e_requests_with_a_cut_connection": sum(1 for t in recs if "/drop" in t),
         "e2e_requests_with_max_retry_count_0": sum(1 for t in recs if fld(t, "spec").startswith("0:")),
         "e2e_requests_ended_by_client_timeout": sum(1 for t in recs if fld(t, "res") == "timeout"),
+        "e2e_timed_out_requests_with_more_than_one_frame": sum(1 for t in recs if fld(t, "res") == "timeout" and _nframes(t) > 1),
         "e2e_scenarios_on_sharded_nodes": sum(1 for ln in e if re.search(r"\| env:\d+:rp\d+:sh[1-9]", ln)),
         "e2e_same_node_retries_on_sharded_nodes": _same_node_sharded(e),
         "e2e_in_attempt_reprepares_merged": sum(int(m.group(1)) for ln in e for m in [re.search(r"\| env:\d+:rp(\d+)", ln)] if m),
@@ -365,20 +376,22 @@ SPEC = {
              "F = the REAL execution loop (run_request_no_side_effects -> run_request_speculative_fiber, through the "
              "verif_execution hook: scripted targets sharing one idle connection, recording retry policy): every "
              "outcome stream of length <= 3 (quick) / 4 (thorough) over {conn-fail, success, 8 errors} x plan length "
-             "0..3 x 4 consistencies x idempotent x 3 policies, plus seeded random streams (plan <= 5, length <= plan+4, "
+             "0..3 x 4 consistencies x idempotent x 3 policies, plus every stream of length 5 over the 7 letters that make a policy go on x plan 3 x "
+             "2 policies x idempotent x 2 consistencies (134 456 cases), plus seeded random streams (plan <= 5, length <= plan+4, "
              "half biased to retrying errors); events (target, consistency, error class, decision) and the result are "
              "compared exactly with the model's fiber; "
              "E6 = end to end: one seeded scenario (260 quick / 2500 thorough / 600 in search rounds; the first 14 are "
              "fixed shapes: statement not idempotent / idempotent x profile with a speculative policy / without, first "
              "answer of every page delayed 300 ms and a success resp. Unavailable, through each of the 7 session APIs) = "
-             "a mock cluster of 2-4 nodes (40 % with 2 or 3 shards per node and one connection per shard) + one real Session + 3-9 logical requests through query_unpaged / "
+             "a mock cluster of 2-4 nodes (40 % with 2 or 3 shards per node and one connection per shard) + one real Session + 3-6 (quick) / 4-9 (thorough) logical requests through query_unpaged / "
              "execute_unpaged / batch / query_single_page / execute_single_page / query_iter / execute_iter (1-3 pages), "
              "idempotence flag, retry policy {Default, DowngradingConsistency, Fallthrough}, speculative policy {none, "
              "Simple(max 0-3, 30 ms)} and consistency (incl. SERIAL / LOCAL_SERIAL) taken from the statement, from an own "
              "execution profile or from the session's default profile; the mock answers the k-th frame of a page with the "
              "k-th scripted outcome (ERROR frames of the C06 error domain, unparsable ERROR body, UNPREPARED to an EXECUTE, cut "
              "connection, delay, success); 1 request in 14 carries a 100 ms client-side request timeout against a 300 ms answer (a timed-out "
-             "request is judged by check_timeout; a frame arriving more than the margin after its return is a viol); per logical "
+             "request is judged by check_timeout; 1 in 3 of them has an Unavailable answered 85 ms in, so that the next frame is sent ~15 ms before "
+             "the timeout; a frame OTHER than the first arriving more than the margin after the return is a viol); per logical "
              "request and page the frames the mock received (node, consistency, arrival / answer instants, answer) and the "
              "caller's result and coordinator must be accepted by the extracted checker e2e_check on a certificate the "
              "driver proposes (plan + outcome stream per fiber); "
@@ -396,7 +409,8 @@ SPEC = {
         "e2e: vh::mocknode (scripted CQL mock cluster; one trace with one clock; an answer is logged before it is written) "
         "and harness/src/e2e_attempts.rs (scenario generator, per-marker scripting handler, result / coordinator capture)",
         "e2e: the OCaml driver only PROPOSES certificates (split into fibers, plan and outcome stream per fiber); acceptance "
-        "is decided by the extracted e2e_check, proved sound against fiber (C06_e2e_run, C06_e2e_gate, C06_e2e_fibers)",
+        "is decided by the extracted e2e_check or, for a request that ended with the client-side timeout (about 50-70 records per "
+        "quick run), check_timeout, proved sound against fiber (C06_e2e_run, C06_e2e_gate, C06_e2e_fibers, C06_e2e_timeout)",
     ],
     "assumptions": [
         "the outcome stream (connection acquisition results, attempt results) is an oracle: theorems quantify over every stream",
